@@ -9,6 +9,7 @@ from __future__ import annotations
 
 import hashlib
 import hmac
+import io
 import logging
 import os
 import pickle
@@ -238,6 +239,26 @@ class DiskCache:
         self._cache.set(key + self._HMAC_SUFFIX, value_hmac)
 
 
+def _pickle_by_value(obj: Any) -> bytes:
+    """Pickle ``obj`` so that equal values give equal bytes.
+
+    The default pickler replaces a repeated object by a back-reference, so the
+    bytes depend on which sub-objects happen to be shared (e.g. an argument that
+    also occurs inside another argument, which changes once one of them is
+    restored from the cache). Pickling without the memo table removes that
+    dependence; self-referential values cannot be pickled that way and fall
+    back to the default pickler.
+    """
+    buffer = io.BytesIO()
+    pickler = pickle.Pickler(buffer)
+    pickler.fast = True
+    try:
+        pickler.dump(obj)
+    except (RecursionError, ValueError):
+        return pickle.dumps(obj)
+    return buffer.getvalue()
+
+
 def compute_cache_key(definition_hash: str, inputs: dict[str, Any]) -> str:
     """Compute a cache key from node identity and input values.
 
@@ -250,7 +271,7 @@ def compute_cache_key(definition_hash: str, inputs: dict[str, Any]) -> str:
     """
     try:
         sorted_items = sorted(inputs.items())
-        inputs_bytes = pickle.dumps(sorted_items)
+        inputs_bytes = _pickle_by_value(sorted_items)
     except (pickle.PicklingError, TypeError, AttributeError) as exc:
         logger.warning("Cache miss: inputs not picklable (%s)", exc)
         return ""
